@@ -89,15 +89,20 @@ def gen_impl(gen):
     raise ValueError(gen[0])
 
 
+
+
 def run_gen(case):
     env.uuid_counter.n = case['k0'] - 1
     try:
         c = gen_impl(case['gen'])
+        ok, d1, c = ac.fresh_on_every_call(case, c, lambda: gen_impl(case['gen']))
     except RecursionError:
         raise
     except Exception as e:  # noqa: BLE001
         return ('err', ac.err_name(e)), None
-    return ('ok', ct.dump_circuit(c)), c
+    if not ok:
+        return ('err', ac.SHARED_STATE), None
+    return ('ok', d1), c
 
 
 # ------------------------------------------------------------------ Coq terms
